@@ -1,6 +1,7 @@
 //! Checker binary for the properties anchored in the on-chain programs (store, treasury,
 //! timelock, competition, liquidity-provider) and in the SDK's view of their accounts.
 mod c15;
+mod c18;
 mod cfgkeys;
 mod defaults;
 mod svm;
@@ -27,6 +28,7 @@ fn main() {
         "C15" => c15::run(&cli),
         "C16" => cfgkeys::run_c16(&cli),
         "C17" => cfgkeys::run_c17(&cli),
+        "C18" => c18::run(&cli),
         other => {
             eprintln!("unknown property {other}");
             std::process::exit(2)
